@@ -44,8 +44,14 @@ static enum eventloop_return handle_events(struct eventloop_epoll *loop, int num
 			return EL_ABORT_LOOP;
 		}
 	}
+	loop->pending_events = events;
+	loop->num_pending_events = num_events;
 	for (int i = 0; i < num_events; ++i) {
 		struct io_event *ev = events[i].data.ptr;
+		if (unlikely(ev == NULL)) {
+			/* The event was removed by a callback of an earlier event of this batch. */
+			continue;
+		}
 		loop->current_ev = ev;
 
 		if (unlikely((events[i].events & ~(EPOLLIN | EPOLLOUT)) != 0)) {
@@ -80,6 +86,8 @@ static enum eventloop_return handle_events(struct eventloop_epoll *loop, int num
 			}
 		}
 	}
+	loop->pending_events = NULL;
+	loop->num_pending_events = 0;
 	return EL_CONTINUE_LOOP;
 }
 
@@ -92,6 +100,8 @@ int eventloop_epoll_init(void *this_ptr)
 	}
 
 	loop->current_ev = NULL;
+	loop->pending_events = NULL;
+	loop->num_pending_events = 0;
 	return 0;
 }
 
@@ -110,9 +120,12 @@ int eventloop_epoll_run(void *this_ptr, const int *go_ahead)
 		int num_events =
 		    epoll_wait(loop->epoll_fd, events, CONFIG_MAX_EPOLL_EVENTS, -1);
 
-		if (unlikely(handle_events(loop, num_events, events) == EL_ABORT_LOOP)) {
+		enum eventloop_return ret = handle_events(loop, num_events, events);
+		/* The batch lives on this stack frame: forget it on every way out of the dispatch. */
+		loop->pending_events = NULL;
+		loop->num_pending_events = 0;
+		if (unlikely(ret == EL_ABORT_LOOP)) {
 			return -1;
-			break;
 		}
 	}
 	return 0;
@@ -141,5 +154,16 @@ void eventloop_epoll_remove(void *this_ptr, const struct io_event *ev)
 	epoll_ctl(loop->epoll_fd, EPOLL_CTL_DEL, ev->sock, NULL);
 	if (loop->current_ev == ev) {
 		loop->current_ev = NULL;
+	}
+
+	/*
+	 * The kernel forgets the registration, but events that were
+	 * already harvested for it are still in the batch being dispatched.
+	 */
+	struct epoll_event *pending = loop->pending_events;
+	for (int i = 0; i < loop->num_pending_events; ++i) {
+		if (pending[i].data.ptr == ev) {
+			pending[i].data.ptr = NULL;
+		}
 	}
 }
